@@ -263,7 +263,8 @@ def single_op(spec):
         ops.append(D({"op": J("reset"), "leaf": pick}))
     if root_leaves:
         def kwargs(idx):
-            return D({"op": J("ctor"), "kw": st.fixed_dictionaries({root_leaves[i][0][0]: value_for(root_leaves[i][1]) for i in idx})})
+            # (an explicit None is a keyword like any other: the field is then set to None by the caller)
+            return D({"op": J("ctor"), "kw": st.fixed_dictionaries({root_leaves[i][0][0]: st.one_of(value_for(root_leaves[i][1]), value_for(root_leaves[i][1]), st.none()) for i in idx})})
         ops.append(st.lists(st.integers(0, len(root_leaves) - 1), unique=True, min_size=0, max_size=3).flatmap(kwargs))
     ops.append(D({"op": J("load_tree"), "tree": subtree(spec)}))
     ops.append(D({"op": J("loads"), "fmt": st.sampled_from(FORMATS), "tree": subtree(spec)}))
